@@ -2,6 +2,7 @@ package ssaexec
 
 import (
 	"fmt"
+	"runtime/debug"
 	"math/bits"
 	"os"
 	"sort"
@@ -103,6 +104,9 @@ func (st *State) feasible(cond *smt.Term) bool {
 		return false
 	}
 	st.w.Stats.SolverChecks++
+	if traceDec && st.w.Stats.SolverChecks < 4 {
+		fmt.Fprintf(os.Stderr, "FEASIBLE-CALL %v\n%s\n", cond, debug.Stack())
+	}
 	if st.w.Opt.IntFirst {
 		if r, _ := st.intQuery(false, cond); r != smt.Unknown {
 			return r != smt.Unsat
@@ -120,6 +124,7 @@ func (st *State) feasible(cond *smt.Term) bool {
 
 var intDumpN int
 var traceDec = os.Getenv("GOSYM_TRACE") != ""
+var _ = os.Stderr
 
 // intQuery decides pathcond ∧ extra on the integer translation (one-shot z3,
 // then cvc5). Unknown when the translation is not applicable.
@@ -205,6 +210,48 @@ func (st *State) branch(cond *smt.Term, label string) bool {
 			return val
 		}
 	}
+	if !st.w.Opt.NoFast {
+		if ids, small := cond.Supp(); !small || len(ids) > 1 {
+			// replace single-variable subterms that are constant over the variable's
+			// current domain (table lookups after the lookup key has been classified)
+			for iter := 0; iter < 6; iter++ {
+				nc := st.simplifyUnderDomains(cond, map[uint32]*smt.Term{}, 0)
+				if nc != cond {
+					st.w.Stats.DomainSimplified++
+					cond = nc
+					if cond.IsTrue() {
+						return true
+					}
+					if cond.IsFalse() {
+						return false
+					}
+				}
+				if ids, small := cond.Supp(); small && len(ids) <= 1 {
+					break
+				}
+				// classify: fork on the value of a single-variable subterm that takes
+				// few distinct values (each fork is a cheap byte-domain decision)
+				u, vals := st.findSplittable(cond, map[uint32]bool{}, 0)
+				if u == nil {
+					break
+				}
+				for _, val := range vals[:len(vals)-1] {
+					var eq *smt.Term
+					if u.W == 0 {
+						eq = u
+						if val == 0 {
+							eq = st.c.BNot(u)
+						}
+					} else {
+						eq = st.c.Eq(u, st.c.Const(val, u.W))
+					}
+					if st.branch(eq, "classify") {
+						break
+					}
+				}
+			}
+		}
+	}
 	ncond := st.c.BNot(cond)
 	v, tmask, fmask, uni := st.univariate(cond)
 	if st.replaying() {
@@ -216,7 +263,7 @@ func (st *State) branch(cond *smt.Term, label string) bool {
 		if uni {
 			d.conds = []*smt.Term{st.domainTerm(v, tmask), st.domainTerm(v, fmask)}
 		} else {
-			st.multiVar = true
+			st.noteMultiVar(cond)
 		}
 		st.takeDecision(d)
 		if uni {
@@ -236,7 +283,7 @@ func (st *State) branch(cond *smt.Term, label string) bool {
 	if uni {
 		st.w.Stats.FastDecided++
 		ft, ff = nonEmpty(tmask), nonEmpty(fmask)
-		if ft && ff && st.multiVar {
+		if ft && ff && (st.multiVar || st.mvVars[v.ID]) {
 			// the byte's own domain allows both sides, but constraints relating it to
 			// other variables may not: confirm with the solver
 			ft = st.feasible(cond)
@@ -261,7 +308,7 @@ func (st *State) branch(cond *smt.Term, label string) bool {
 		} else {
 			ff = st.feasible(ncond)
 		}
-		st.multiVar = true
+		st.noteMultiVar(cond)
 	}
 	if !ft && !ff {
 		st.end("INFEASIBLE", "both sides of a branch infeasible")
@@ -341,8 +388,24 @@ func (st *State) assume(cond *smt.Term) {
 			st.end("ASSUME", "assumption unsatisfiable")
 		}
 	}
-	st.multiVar = true
+	st.noteMultiVar(cond)
 	st.assertAtLevel(cond)
+}
+
+// noteMultiVar records which variables are related to others by a constraint
+// of the path condition: only their byte domains may over-approximate.
+func (st *State) noteMultiVar(cond *smt.Term) {
+	ids, small := cond.Supp()
+	if !small {
+		st.multiVar = true
+		return
+	}
+	if st.mvVars == nil {
+		st.mvVars = map[uint32]bool{}
+	}
+	for _, id := range ids {
+		st.mvVars[id] = true
+	}
 }
 
 // live: is the solver stack positioned at the current point of the path?
@@ -808,4 +871,128 @@ func (st *State) intervalDecide(t *smt.Term, depth int) (val, ok bool) {
 		}
 	}
 	return false, false
+}
+
+// constOverDomain: is the single-variable term t constant over v's domain?
+func (st *State) constOverDomain(t, v *smt.Term) (uint64, bool) {
+	dom := st.domains[v.ID]
+	if dom == nil || v.W != 8 {
+		return 0, false
+	}
+	if domCount(dom) > 64 {
+		return 0, false
+	}
+	var cur uint64
+	env := func(*smt.Term) uint64 { return cur }
+	first := true
+	var val uint64
+	for x := 0; x < 256; x++ {
+		if dom[x>>6]&(1<<(uint(x)&63)) == 0 {
+			continue
+		}
+		cur = uint64(x)
+		r, ok := st.c.Eval(t, env)
+		if !ok {
+			return 0, false
+		}
+		if first {
+			val, first = r, false
+		} else if r != val {
+			return 0, false
+		}
+	}
+	return val, !first
+}
+
+func (st *State) simplifyUnderDomains(t *smt.Term, memo map[uint32]*smt.Term, depth int) *smt.Term {
+	if t.Op == smt.OpConst || t.Op == smt.OpVar || depth > 200 {
+		return t
+	}
+	if r, ok := memo[t.ID]; ok {
+		return r
+	}
+	res := t
+	ids, small := t.Supp()
+	if small && len(ids) == 1 {
+		v := st.c.TermByID(ids[0])
+		if val, ok := st.constOverDomain(t, v); ok {
+			if t.W == 0 {
+				res = st.c.Bool(val != 0)
+			} else {
+				res = st.c.Const(val, t.W)
+			}
+		}
+		memo[t.ID] = res
+		return res
+	}
+	if t.Op == smt.OpUF || t.Op >= smt.OpFLt {
+		memo[t.ID] = t
+		return t
+	}
+	var a, b, c *smt.Term
+	if t.A != nil {
+		a = st.simplifyUnderDomains(t.A, memo, depth+1)
+	}
+	if t.B != nil {
+		b = st.simplifyUnderDomains(t.B, memo, depth+1)
+	}
+	if t.C != nil {
+		c = st.simplifyUnderDomains(t.C, memo, depth+1)
+	}
+	if a != t.A || b != t.B || c != t.C {
+		res = st.c.Rebuild(t, a, b, c)
+	}
+	memo[t.ID] = res
+	return res
+}
+
+// findSplittable finds a maximal single-variable, non-variable subterm of t
+// whose value set over the variable's current domain is small (2..4 values).
+func (st *State) findSplittable(t *smt.Term, seen map[uint32]bool, depth int) (*smt.Term, []uint64) {
+	if t.Op == smt.OpConst || t.Op == smt.OpVar || seen[t.ID] || depth > 200 {
+		return nil, nil
+	}
+	seen[t.ID] = true
+	ids, small := t.Supp()
+	if small && len(ids) == 1 {
+		v := st.c.TermByID(ids[0])
+		if v.W != 8 {
+			return nil, nil
+		}
+		dom := st.domains[v.ID]
+		vals := map[uint64]bool{}
+		var cur uint64
+		env := func(*smt.Term) uint64 { return cur }
+		for x := 0; x < 256; x++ {
+			if dom != nil && dom[x>>6]&(1<<(uint(x)&63)) == 0 {
+				continue
+			}
+			cur = uint64(x)
+			r, ok := st.c.Eval(t, env)
+			if !ok {
+				return nil, nil
+			}
+			vals[r] = true
+			if len(vals) > 4 {
+				return nil, nil
+			}
+		}
+		if len(vals) < 2 {
+			return nil, nil
+		}
+		var out []uint64
+		for k := range vals {
+			out = append(out, k)
+		}
+		sort.Slice(out, func(i, j int) bool { return out[i] < out[j] })
+		return t, out
+	}
+	for _, ch := range []*smt.Term{t.A, t.B, t.C} {
+		if ch != nil {
+			if u, vals := st.findSplittable(ch, seen, depth+1); u != nil {
+				return u, vals
+			}
+		}
+	}
+	return nil, nil
 }
